@@ -40,8 +40,13 @@ where
         .read_until(0, &mut user_id)
         .await
         .map_err(|e| Error::ProcessSocksRequest("read user id", e))?;
-    // Remove the null byte
-    user_id.pop();
+    // Remove the null byte; end-of-file before it means the request is truncated
+    if user_id.pop() != Some(0) {
+        return Err(Error::ProcessSocksRequest(
+            "read user id",
+            std::io::ErrorKind::UnexpectedEof.into(),
+        ));
+    }
     // SOCKS4a: `0.0.0.x` with a non-zero `x` announces a domain name
     let rhost = if ip != 0 && ip >> 8 == 0 {
         let mut domain = Vec::new();
@@ -50,7 +55,12 @@ where
             .await
             .map_err(|e| Error::ProcessSocksRequest("read domain", e))?;
         // Remove the null byte
-        domain.pop();
+        if domain.pop() != Some(0) {
+            return Err(Error::ProcessSocksRequest(
+                "read domain",
+                std::io::ErrorKind::UnexpectedEof.into(),
+            ));
+        }
         domain
     } else {
         Ipv4Addr::from(ip).to_string().into()
